@@ -12,7 +12,8 @@
    and `nz` is not a hypothesis: it follows from the open masks and 0 < eps. *)
 From Coq Require Import Reals List Lra Lia.
 From Coquelicot Require Import Coquelicot.
-Require Import XV.Real.Kernels XV.Real.Grads XV.Real.GradsP XV.Real.GradAuto XV.Real.AgopOfPredictor XV.Real.AgopOfPredictorPQ.
+Require Import XV.Real.Kernels XV.Real.Grads XV.Real.GradsP XV.Real.GradAuto XV.Real.ScaleInvL2 XV.Real.AgopOfPredictor
+               XV.Real.AgopOfPredictorPQ.
 Import ListNotations.
 Local Open Scope R_scope.
 
